@@ -278,6 +278,53 @@ def n9_step_by(text, fired):
     return n9_step_by(text[:mm.start()] + new + text[close_i + 1:], fired)
 
 
+def n20_anf_tail_chain(body, fired, qname):
+    """N20 (opt-in, `//@ anf`): the tail expression `R.m1(..).m2(..)...mk(..)` of a function body becomes
+    `let vx_c1 = R.m1(..); let vx_c2 = vx_c1.m2(..); ... let vx_ck = vx_c{k-1}.mk(..); vx_ck` (A-normal form: same calls, same order)."""
+    m = mask(body)
+    close = m.rstrip().rfind('}')
+    # tail expression = text after the last `;` or `{` at depth 1
+    depth, start = 0, None
+    for i, ch in enumerate(m[:close]):
+        if ch in '([{':
+            depth += 1
+            if depth == 1 and ch == '{':
+                start = i + 1
+        elif ch in ')]}':
+            depth -= 1
+        elif ch == ';' and depth == 1:
+            start = i + 1
+    tail = body[start:close]
+    tm = mask(tail)
+    if not tail.strip():
+        raise GenError('N20: %s has no tail expression' % qname)
+    # split at top-level `.ident(` boundaries
+    cuts, depth = [], 0
+    for i, ch in enumerate(tm):
+        if ch in '([{':
+            depth += 1
+        elif ch in ')]}':
+            depth -= 1
+        elif ch == '.' and depth == 0 and re.match(r'\.\s*[a-z_][A-Za-z0-9_]*\s*(::<[^>]*>)?\s*\(', tm[i:]):
+            cuts.append(i)
+    if len(cuts) < 2:
+        raise GenError('N20: tail of %s is not a method chain' % qname)
+    indent = '        '
+    pieces = []
+    recv = tail[:cuts[0]].strip()
+    segs = [tail[cuts[k]:(cuts[k + 1] if k + 1 < len(cuts) else len(tail))].strip() for k in range(len(cuts))]
+    # first binding takes receiver + first call
+    out = []
+    cur = recv + segs[0]
+    for k in range(1, len(segs)):
+        out.append('%slet vx_c%d = %s;' % (indent, k, re.sub(r'\s*\n\s*', ' ', cur)))
+        cur = 'vx_c%d' % k + segs[k]
+    out.append('%slet vx_c%d = %s;' % (indent, len(segs), re.sub(r'\s*\n\s*', ' ', cur)))
+    out.append('%svx_c%d' % (indent, len(segs)))
+    fired['N20'] = fired.get('N20', 0) + 1
+    return body[:start] + '\n' + '\n'.join(out) + '\n    ' + body[close:]
+
+
 def n17_ref_into_iter(text, fired):
     """N17: `for P in &PATH {` -> `for P in PATH.iter() {`  (std: <&C as IntoIterator>::into_iter is C::iter;
     vstd has no specification for the former on VecDeque)."""
@@ -506,7 +553,7 @@ class Gen:
                         dd = shlex.split(sj[3:].strip())
                         if dd[0] == 'endfn':
                             break
-                        if dd[0] in ('loop', 'at', 'start', 'sigattr', 'tail', 'closure'):
+                        if dd[0] in ('loop', 'at', 'start', 'sigattr', 'tail', 'closure', 'anf'):
                             sections.append((dd[0], dd[1:], [], j + 1))
                         else:
                             raise GenError('%s:%d unexpected directive %s inside fn' % (tmpl_path, j + 1, dd[0]))
@@ -674,6 +721,8 @@ class Gen:
         body2 = normalise_code(body, fired)
         body2 = n6_closure_patterns(body2, fired)
         body2 = n9_step_by(body2, fired)
+        if any(kind == 'anf' for kind, _, _, _ in sections):
+            body2 = n20_anf_tail_chain(body2, fired, qname)
         body2 = n17_ref_into_iter(body2, fired)
         body2 = n13_hoist_iter_temp(body2, fired)
         for kind, args, slines, tl in sections:
